@@ -61,6 +61,15 @@ func (v Val) key(sb *strings.Builder) {
 	case VFloat:
 		sb.WriteString("f:" + strconv.FormatFloat(v.F, 'g', -1, 64))
 	case VStr:
+		if len(v.S) > 400 {
+			// long strings are shown by their ends, length and a checksum
+			h := uint64(1469598103934665603)
+			for i := 0; i < len(v.S); i++ {
+				h = (h ^ uint64(v.S[i])) * 1099511628211
+			}
+			sb.WriteString(strconv.Quote(v.S[:20]) + fmt.Sprintf("...(%d bytes, fnv %016x)...", len(v.S), h) + strconv.Quote(v.S[len(v.S)-20:]))
+			break
+		}
 		sb.WriteString(strconv.Quote(v.S))
 	case VBytes:
 		sb.WriteString("b" + strconv.Quote(v.S))
